@@ -511,3 +511,4 @@ Proof.
   - intros c0 q0 [Hq|[-> ->]]; auto. right. right. exists l1. auto.
   - intros l Hl. apply (inv_dom _ _ _ W0) in Hl. lia.
 Qed.
+
